@@ -27,7 +27,6 @@ Oracles around every estimate / personalize / simulate call X made after history
 
 from __future__ import annotations
 
-import copy
 import os
 
 from .. import c13_lib as L
@@ -51,7 +50,10 @@ ASSUMPTIONS = [
     "fit is only a history-making operation: nothing is demanded of fit itself (a fit started on an object that still holds "
     "another cohort's latent values fails - that history is pruned and counted as an outcome)",
     "merging states with equal keys assumes the public calls read nothing else from the object (cached derived values are "
-    "covered by C01); every deep copy used for branching is cross-checked against a from-scratch replay of its history",
+    "covered by C01); process-level state of the library is not part of the key: instead every explored state lives in a "
+    "process that executed exactly its history (fork of a pristine template), every shard starts from its first operation "
+    "whatever the key (so every ordered pair of operations is executed), and every reference answer comes from a process in "
+    "which nothing else was ever run",
     "the history-free reference holds bit-identical parameters; whether save/load preserves parameters is C12's subject",
     "PYTHONHASHSEED=0, one torch thread; simulate only exists for the logistic kind; joint data cannot be given as a raw table",
 ]
@@ -68,28 +70,27 @@ THOROUGH_DEPTH = {n: (4 if i < 4 else 3) for i, n in enumerate(THOROUGH_SPECS)}
 
 
 def menu(spec, tier):
+    """Operations: ["fit", cohort, form, variant], ["personalize", algo, cohort, form, variant], ... (see c13_lib).
+    variant "custom" = settings carrying nested containers (annealing on / sampler parameters / solver options)."""
     forms = L.forms_for(spec)
-    ops = []
-    for i, c in enumerate(("A", "D")):
-        ops.append(["fit", c, forms[(2 * i) % len(forms)]])
-    ops.append(["estimate"])
+    ops = [["fit", "A", forms[0], "default"], ["fit", "D", forms[2 % len(forms)], "custom"], ["estimate"]]
     k = 0
     for algo in ALGOS:
-        for cohort in ("A", "B"):
+        for cohort, variant in (("A", "default"), ("B", "custom")):
             if tier == "quick" and (algo, cohort) in (("mean_posterior", "A"), ("mode_posterior", "A")):
                 continue
-            ops.append(["personalize", algo, cohort, forms[k % len(forms)]])
+            if tier == "quick" and algo == "mean_posterior":
+                variant = "default"
+            ops.append(["personalize", algo, cohort, forms[k % len(forms)], variant])
             k += 1
     # a single-individual cohort
-    ops.append(["personalize", "scipy_minimize", "C", forms[k % len(forms)]])
+    ops.append(["personalize", "scipy_minimize", "C", forms[k % len(forms)], "default"])
     if tier != "quick":
-        ops.append(["personalize", "mode_posterior", "C", forms[(k + 1) % len(forms)]])
-        # every input form for one optimiser-based and one sampler-based personalization
+        ops.append(["personalize", "mode_posterior", "C", forms[(k + 1) % len(forms)], "default"])
+        # every input form for one optimiser-based and one sampler-based personalization (default settings)
         for algo in ("scipy_minimize", "mode_posterior"):
             for f in forms:
-                op = ["personalize", algo, "B", f]
-                if op not in ops:
-                    ops.append(op)
+                ops.append(["personalize", algo, "B", f, "default"])
     if spec["kind"] == "logistic":
         ops.append(["simulate", "dataframe"])
         if tier != "quick":
@@ -103,14 +104,16 @@ def bounds(tier):
         return {
             "models": list(QUICK_SPECS),
             "depth": 3,
-            "menu": "fit(A), fit(D), estimate, personalize: scipy(A,B,C) mode(B) mean(B), simulate[dataframe] (logistic), save+load; "
+            "menu": "fit(A), fit(D, annealing on), estimate, personalize: scipy(A), scipy(B, custom solver options), scipy(C), "
+                    "mode(B, annealing on + custom sampler parameters), mean(B), simulate[dataframe] (logistic), save+load; "
                     "input forms rotate over DataFrame with columns / DataFrame indexed by (ID, TIME) / Data / Dataset",
             "seeds": "algorithm seed 0 (+ VERIF_SEED on the first model)",
         }
     return {
         "models": list(THOROUGH_SPECS),
         "depth": dict(THOROUGH_DEPTH),
-        "menu": "fit(A), fit(D), estimate, personalize: 3 algorithms x cohorts A,B + scipy/mode on the single-individual cohort C + every input form for scipy_minimize/B and "
+        "menu": "fit(A), fit(D, annealing on), estimate, personalize: 3 algorithms x (cohort A default settings, cohort B custom "
+                "settings = annealing on + sampler parameters / custom solver options) + scipy/mode on the single-individual cohort C + every input form for scipy_minimize/B and "
                 "mode_posterior/B, simulate[dataframe|random] (logistic), save+load",
         "seeds": "algorithm seed 0 (+ VERIF_SEED on the first two models)",
     }
@@ -134,87 +137,94 @@ def shards(tier, seed):
 
 
 # ------------------------------------------------------------------------------------------------------------
+# Process layout of one shard (see c13_lib, "process isolation"):
+#   worker (pool)  --subprocess-->  controller: fresh interpreter, never runs leaspy, does the BFS bookkeeping
+#   controller --fork--> reference template (pristine)  --fork per request--> one reference call
+#   controller --fork--> expansion template (pristine)  --fork per state--> replays the state's history
+#                                                            --fork per operation--> the checked transition
 
-def _record(acc, tr, case, key_before, op):
+def _record(acc, r, case, key_before, op):
     acc.evaluation()
     acc.transition()
-    acc.outcome(tr.outcome)
-    if tr.nontrivial:
+    acc.outcome(r["outcome"])
+    if r["nontrivial"]:
         acc.nontriv({"model": case["model"], "seed": case["seed"], "state": key_before, "op": op})
-    for sig, msg, exp, obs in tr.violations:
+    for sig, msg, exp, obs in r["violations"]:
         acc.violation(sig, f"[{case['model']}, history {case['history']}] {msg}", case, expected=exp, observed=obs)
 
 
-def run_shard(shard):
+def explore(shard):
+    """Runs in the controller process (fresh interpreter)."""
     acc = Acc()
     spec = MODEL_SPECS[shard["model"]]
     seed = shard["seed"]
     ops = menu(spec, shard["tier"])
     with L.workdir() as wd:
-        root = L.build_model(spec)
-        if shard["first"] is None:
-            # the transitions leaving the initial state
-            k0 = L.state_key(root)
-            acc.state()
-            for op in ops:
-                m = copy.deepcopy(root)
-                case = {"model": shard["model"], "seed": seed, "history": [], "op": op}
-                tr = L.check_transition(m, spec, op, seed, wd)
-                _record(acc, tr, case, k0, op)
-                if len(acc.samples) < 2 and tr.nontrivial:
-                    acc.sample({**case, "outcome": tr.outcome})
-            return acc.to_dict()
-
-        # histories starting with shard["first"]; its own transition is checked by the `first: None` shard
-        first = shard["first"]
+        ex = L.Explorer(spec, ops, wd)  # before anything else: both templates must be pristine
         try:
-            start = L.apply_plain(copy.deepcopy(root), spec, first, seed, wd)
-        except Exception as e:
-            acc.evaluation()
-            acc.outcome(f"prefix not executable: {L.op_label(first)} raises {type(e).__name__}")
-            acc.nontriv({"prefix": first, "model": shard["model"], "seed": seed})
-            acc.nontriv({"prefix-failed": first, "model": shard["model"], "seed": seed})
-            return acc.to_dict()
-        frontier = [([first], start)]
-        seen = {L.state_key(start)}
-        acc.state()
-        for depth in range(1, shard["depth"]):
-            nxt = []
-            for hist, model in frontier:
-                kb = L.state_key(model)
-                for op in ops:
-                    m = copy.deepcopy(model)
-                    if L.state_key(m) != kb:
-                        raise RuntimeError("harness: deep copy of the model has another canonical key")
-                    case = {"model": shard["model"], "seed": seed, "history": hist, "op": op}
-                    tr = L.check_transition(m, spec, op, seed, wd)
-                    _record(acc, tr, case, kb, op)
-                    if tr.nontrivial and len(acc.samples) < 2 and len(hist) >= 2:
-                        acc.sample({**case, "outcome": tr.outcome})
-                    if not tr.ok:
-                        continue
-                    k = L.state_key(tr.model)
-                    if k in seen:
-                        continue
-                    seen.add(k)
-                    acc.state()
-                    h2 = hist + [op]
-                    if depth + 1 < shard["depth"]:
-                        # the live object of the new state is a deep copy that went through the oracles' extra calls:
-                        # cross-check it against a from-scratch replay of its history before exploring from it
-                        if L.state_key(L.materialize(spec, h2, seed, wd)) != k:
-                            raise RuntimeError(f"harness: replaying {h2} from scratch does not reach the explored state")
-                        acc.count("states cross-checked against a from-scratch replay")
-                        nxt.append((h2, tr.model))
-            frontier = nxt
+            start = [] if shard["first"] is None else [shard["first"]]
+            max_len = 1 if shard["first"] is None else shard["depth"]  # longest history (with the checked operation)
+            frontier = [start]
+            seen = set()
+            for depth in range(len(start), max_len):
+                nxt = []
+                for hist in frontier:
+                    out = ex.expand(spec, hist, ops, seed, wd)
+                    if "prefix_error" in out:
+                        if hist != start:
+                            raise RuntimeError(f"harness: history {hist} was executable when discovered, not when replayed")
+                        acc.evaluation()
+                        acc.outcome(f"prefix not executable: {L.op_label(hist[0])} raises {out['prefix_error']}")
+                        acc.nontriv({"prefix": hist, "model": shard["model"], "seed": seed})
+                        acc.nontriv({"prefix-failed": hist, "model": shard["model"], "seed": seed})
+                        return acc.to_dict()
+                    kb = out["key"]
+                    if hist == start:
+                        seen.add(kb)
+                        acc.state()
+                    for op, r in zip(ops, out["results"]):
+                        case = {"model": shard["model"], "seed": seed, "history": hist, "op": op}
+                        _record(acc, r, case, kb, op)
+                        if r["nontrivial"] and len(acc.samples) < 2 and (len(hist) >= 2 or shard["first"] is None):
+                            acc.sample({**case, "outcome": r["outcome"]})
+                        if not r["ok"] or r["key_after"] in seen:
+                            continue
+                        seen.add(r["key_after"])
+                        acc.state()
+                        if depth + 1 < max_len:
+                            nxt.append(hist + [op])
+                frontier = nxt
+        finally:
+            ex.close()
     return acc.to_dict()
 
 
+def run_shard(shard):
+    """Every shard is explored in a fresh interpreter (pool workers are re-used, and process-level state of the
+    library is part of what the property quantifies over)."""
+    import json
+    import subprocess
+    import sys
+
+    env = dict(os.environ, PYTHONHASHSEED="0", OMP_NUM_THREADS="1", MKL_NUM_THREADS="1", OPENBLAS_NUM_THREADS="1")
+    root = os.path.dirname(os.path.dirname(os.path.dirname(os.path.abspath(__file__))))
+    env["PYTHONPATH"] = os.pathsep.join([p for p in (env.get("PYTHONPATH"), root) if p])
+    p = subprocess.run([sys.executable, "-m", "lmc.c13_inner"], input=json.dumps(shard), capture_output=True, text=True,
+                       env=env, cwd=root)
+    if p.returncode != 0:
+        raise RuntimeError(f"C13 controller failed (exit {p.returncode}):\n{p.stderr[-4000:]}")
+    return json.loads(p.stdout)
+
+
 def replay(case):
-    spec = MODEL_SPECS[case["model"]]
-    with L.workdir() as wd:
-        model = L.materialize(spec, case["history"], case["seed"], wd)
-        tr = L.check_transition(model, spec, case["op"], case["seed"], wd)
+    L.start_ref_server()  # before anything of leaspy is run in this process
+    try:
+        spec = MODEL_SPECS[case["model"]]
+        with L.workdir() as wd:
+            model = L.materialize(spec, case["history"], case["seed"], wd)
+            tr = L.check_transition(model, spec, case["op"], case["seed"], wd)
+    finally:
+        L.stop_ref_server()
     return [{"signature": s, "message": m} for s, m, _, _ in tr.violations]
 
 
@@ -225,7 +235,7 @@ def self_check():
     import pandas as pd
 
     spec = MODEL_SPECS["logistic_d2_s0_diag"]
-    op = ["personalize", "scipy_minimize", "C", "data"]
+    op = ["personalize", "scipy_minimize", "C", "data", "default"]
     out = []
     for recorder in (L.Recorder(), None):
         res = L.call(L.build_model(spec), op, L.make_inputs(spec, op, 0), recorder)
